@@ -87,6 +87,27 @@ pub fn run(ctx: &Ctx, ev: &mut Ev) {
             if nontrivial(case, &out) { ev.nontrivial_enum(); }
         });
     }
+    // BOM look-alike prefixes (every string of <= 3 symbols over EF BB BF FE FF 41 80) in the sniffing and removing modes:
+    // every cut set, so that every withheld partial BOM is replayed at every chunk boundary, for every decoder family
+    if ctx.want("bomlike") && !small {
+        let mut fam = families();
+        if !fam.contains(&REPLACEMENT) { fam.push(REPLACEMENT); }
+        let sp3 = DecSpace {
+            encs: fam, small_alpha: true, maxlen: 1, utf16_extra: 1,
+            boms: vec![Bom::Sniff, Bom::Remove], sinks: vec![Sink::U8, Sink::U16], repls: vec![false, true],
+            cap_offsets: vec![vec![0], vec![1], vec![40]], last_seps: vec![false, true], stride: if th { 1 } else { 2 }, prefixes: strings_over(&crate::alpha::BOM_ALPHA, 3), fills: vec![0xA5], token_streams: (0, 0)
+        };
+        ev.note(format!("bomlike: {}", sp3.describe()));
+        let mut rf: Option<Ref> = None;
+        enum_dec(ctx, ev, &sp3, |case, new_group, ev| {
+            if new_group { rf = Some(reference(&mut drv, ev, case)); }
+            let tr = ev.case();
+            let out = drv.run_dec(case, ev);
+            if tr { println!("TRACE {} | calls: {} | items: [{}] | single-call items: [{}]", case.describe(), fmt_calls(&out.calls), fmt_items(&out.items), fmt_items(&rf.as_ref().unwrap().out.items)); }
+            compare(ev, case, &out, rf.as_ref().unwrap());
+            if nontrivial(case, &out) { ev.nontrivial_enum(); }
+        });
+    }
     // seeded random histories on long streams (cuts inside SIMD strides, varied capacities)
     if ctx.want("random") {
         let mut r = ctx.rng(2);
